@@ -44,6 +44,11 @@ def gen_steps(members, terms, static_ok=True):
             steps.append(("_header", (text(1, 10, "abcXYZ-") + ": " + rng.choice([text(0, 12), "a: b", "x=y; z"])).encode()))
         for _ in range(rng.randrange(0, 2)):
             steps.append(("_parameter", (text(1, 6, "abcxyz") + "=" + rng.choice([text(0, 8, "abc019"), "dGVzdA==", "a=b", ""])).encode()))
+        if steps and rng.random() < 0.35:
+            # a name stated twice (Accept twice, the same parameter twice): both statements belong to the profile, in order
+            k, v = rng.choice(steps)
+            sep = b": " if k == "_header" else b"="
+            steps.append((k, v.partition(sep)[0] + sep + text(1, 8, "abc019/").encode()))
     for m, t in zip(members, terms):
         steps.append(("build", m))
         for _ in range(rng.randrange(0, 4)):
